@@ -34,6 +34,7 @@ class Module:
         normalise_if_polarity(self.tree)
         from . import localnames, normalise
         normalise.aug_assign(self.tree)
+        normalise.fstrings_to_format(self.tree)
         normalise.flatten_else(self.tree)
         normalise.merge_nested_ifs(self.tree)
         self.funcs = {}  # qualname -> FunctionDef
@@ -57,6 +58,7 @@ class Module:
                 k += normalise.propagate_new_locals(fn, names)
                 if q in ref_tests:
                     rt = set(ref_tests[q])
+                    k += normalise.orient_exprs(fn, rt)
                     k += normalise.orient_tests(fn, rt)
                     k += normalise.split_or_guards(fn, rt)
                 self.locals_propagated += k
